@@ -400,6 +400,35 @@ pub mod checks {
         rep
     }
 
+    // ---------------------------------------------------------------- C08: deep nesting (stack depth, parse time) — one probe per process
+    pub const DEEP_PROBES: [&str; 8] = ["parens", "not_parens", "fn_nesting_valid", "fn_nesting_invalid", "nested_filters", "doc_descendant", "doc_eq", "segments"];
+    fn deep_array(depth: usize) -> Value { let mut v = json!(1); for _ in 0..depth { v = Value::Array(vec![v]); } v }
+    pub fn deep_probe(probe: usize, d: usize) -> Value {
+        use crate::JsonPath;
+        let small = json!([{"a": 1}]);
+        // (query text, document, expected: Some(n) = Ok with n nodes, None = Err)
+        let (text, doc, want): (String, Value, Option<usize>) = match DEEP_PROBES[probe] {
+            "parens" => (format!("$[?{}@.a{}]", "(".repeat(d), ")".repeat(d)), small, Some(1)),
+            "not_parens" => (format!("$[?{}@.a{}]", "!(".repeat(2 * d), ")".repeat(2 * d)), small, Some(1)),
+            "fn_nesting_valid" => (format!("$[?{}@.a{} == 1]", "value(".repeat(d), ")".repeat(d)), small, Some(1)),
+            "fn_nesting_invalid" => (format!("$[?{}@ @{}]", "f(".repeat(d), ")".repeat(d)), small, None),
+            "nested_filters" => (format!("$[?@{}]", "[?@".repeat(d) + &"]".repeat(d)), json!([deep_array(d + 1)]), Some(1)),
+            "doc_descendant" => ("$..*".to_string(), deep_array(d), Some(d)),
+            "doc_eq" => ("$[?@ == $[0]]".to_string(), json!([deep_array(d), deep_array(d), deep_array(d + 1)]), Some(2)),
+            "segments" => (format!("${}", "[0]".repeat(d)), deep_array(d + 1), Some(1)),
+            _ => ("$".to_string(), small, Some(1)),
+        };
+        let t0 = std::time::Instant::now();
+        let got = doc.query(&text).map(|v| v.len());
+        let secs = t0.elapsed().as_secs_f64();
+        let outcome = match (&got, want) { (Ok(n), Some(w)) if *n == w => "ok", (Err(_), None) => "ok", _ => "wrong" };
+        let r = json!({"probe": DEEP_PROBES[probe], "depth": d, "outcome": outcome, "seconds": secs, "query_len": text.len(),
+                       "observed": match &got { Ok(n) => json!({"ok_nodes": n}), Err(e) => json!({"err": e.to_string().chars().take(80).collect::<String>()}) },
+                       "expected": match want { Some(n) => json!({"ok_nodes": n}), None => json!("Err") }});
+        std::mem::forget(doc);   // dropping a deep serde_json::Value recurses in serde_json (not the code under test)
+        r
+    }
+
     // ---------------------------------------------------------------- C03: a reported path, run as a query, returns exactly that node
     pub fn group_requery(tier: &str, seed: u64, only: Option<(usize, usize)>) -> Report {
         let mut rep = Report::new("requery");
